@@ -511,6 +511,74 @@ func (h *harness) protectedCases(n int) {
 	}
 }
 
+// fragmentCases: local contexts inside the fragment of Spec/JsonLdFragment.lean (prefixes, simple and
+// expanded definitions with @id/@type/@container @list|@set|@language/@language, compact-IRI terms,
+// terms defined through other terms, @vocab, @base, @language), with a few steps outside it.
+func (h *harness) fragmentCases(n int) {
+	names := []string{"a", "b", "c", "ex", "foo", "name", "ns", "xsd"}
+	for i := 0; i < n; i++ {
+		k := 1 + h.r.Intn(6)
+		c := map[string]any{}
+		var used []string
+		for j := 0; j < k; j++ {
+			n := vh.Pick(h.r, names)
+			if len(used) > 0 && h.r.Chance(25) {
+				n = vh.Pick(h.r, used) + ":" + vh.Pick(h.r, []string{"x", "y/z", "p"})
+			}
+			used = append(used, n)
+			var id string
+			switch h.r.Intn(6) {
+			case 0, 1, 2:
+				id = vh.Pick(h.r, absIRIs[:11])
+			case 3:
+				id = vh.Pick(h.r, names) + ":" + vh.Pick(h.r, []string{"s", "", "t/u"})
+			case 4:
+				id = vh.Pick(h.r, names)
+			default:
+				id = vh.Pick(h.r, []string{"http://ex.org/ns#", "http://ex.org/ns/", "rel", "_:b"})
+			}
+			if h.r.Chance(55) {
+				c[n] = id
+				continue
+			}
+			d := map[string]any{}
+			if h.r.Chance(85) {
+				d["@id"] = id
+			}
+			if h.r.Chance(40) {
+				d["@type"] = vh.Pick(h.r, []string{"@id", "@vocab", "http://www.w3.org/2001/XMLSchema#integer", "xsd:date", vh.Pick(h.r, names)})
+			}
+			if h.r.Chance(35) {
+				d["@container"] = vh.Pick(h.r, []string{"@list", "@set", "@language"})
+			}
+			if h.r.Chance(20) {
+				d["@language"] = vh.Pick(h.r, []any{"en", "de-CH", nil})
+			}
+			c[n] = d
+		}
+		if h.r.Chance(35) {
+			c["@vocab"] = vh.Pick(h.r, []any{"http://vocab.org/", "http://vocab.org/ns#", nil, "ex:v/", "rel/"})
+		}
+		if h.r.Chance(25) {
+			c["@base"] = vh.Pick(h.r, []any{"http://base.org/dir/", "rel/", "../up/x", nil, "#f"})
+		}
+		if h.r.Chance(20) {
+			c["@language"] = vh.Pick(h.r, []any{"en", "fr-CA", nil})
+		}
+		if h.r.Chance(10) {
+			c["@version"] = 1.1
+		}
+		var lc any = c
+		if h.r.Chance(15) {
+			lc = []any{nil, c}
+		}
+		hc := hcase{Tag: "fragment", Mode: vh.Pick(h.r, modes[:3]), OrigBase: vh.Pick(h.r, origBases[:4])}
+		hc.Steps = []step{{Propagate: true, Text: jtext(lc)}}
+		hc.Queries = h.battery([]any{lc}, 16)
+		h.run(hc)
+	}
+}
+
 // inheritCases: context-level settings (@base, @vocab, @language, @direction, previous context) made by
 // one step must be in force, unchanged, after later steps which do not mention them.
 func (h *harness) inheritCases(n int) {
